@@ -1102,9 +1102,14 @@ impl Work<Context, WorkId, Error> for StaticMetadataWork {
                 })?;
         }
 
+        // usWeightClass is a u16: don't let a larger value wrap around
         static_metadata.misc.us_weight_class = font_info_at_default
             .open_type_os2_weight_class
-            .map(|v| v as u16);
+            .map(|v| {
+                u16::try_from(v)
+                    .map_err(|_| Error::InvalidEntry("openTypeOS2WeightClass", v.to_string()))
+            })
+            .transpose()?;
         static_metadata.misc.us_width_class = font_info_at_default
             .open_type_os2_width_class
             .map(|v| v as u16);
